@@ -327,16 +327,17 @@ func (s *Service) retrieveChunk(ctx context.Context, route aco.Route, rootAddr, 
 	}
 
 	s.logger.Tracef("retrieval: chunk %s is received", chunkAddr)
-	err = s.chunkinfo.OnChunkRetrieved(chunkAddr, rootAddr, route.LinkNode)
-	if err != nil {
-		return nil, fmt.Errorf("retrieval: report chunk source: %v", err)
-	}
+	// store first: the report below marks (and persists) the chunk as present
 	exists, err := s.storer.Put(sctx.SetRootHash(ctx, rootAddr), storage.ModePutRequest, chunk)
 	if err != nil {
 		return nil, fmt.Errorf("retrieval: storage put cache:%v", err)
 	}
 	if exists[0] {
 		s.logger.Warningf("cid %s store is exists", chunkAddr.String())
+	}
+	err = s.chunkinfo.OnChunkRetrieved(chunkAddr, rootAddr, route.LinkNode)
+	if err != nil {
+		return nil, fmt.Errorf("retrieval: report chunk source: %v", err)
 	}
 	return
 }
